@@ -101,6 +101,19 @@ def replay(case):
     return res["violations"]
 
 
+def time_scaled(d, k):
+    """the same description with every capacitance and inductance multiplied by k (exactly)"""
+    from fractions import Fraction as F_
+    out = []
+    for c in d["components"]:
+        v = dict(c[3])
+        for key in (("C",) if c[0] == "capacitor" else ("L",) if c[0] == "inductance" else ()):
+            x = v[key]
+            v[key] = str(F_(x) * k) if isinstance(x, (str, int)) else x * k
+        out.append([c[0], c[1], list(c[2]), v])
+    return {"components": out}
+
+
 def shape_fn(name, t_end, amp):
     def f(t):
         t = np.asarray(t, dtype=float)
@@ -332,6 +345,34 @@ def judge_circuit(d, combos_mode, tier, res, only=None, only_div=None, ladder=Fa
                     add_violation(res, "integral_laws", dict(case, element=c[1], sample=2 * k), float(rhs[k]), float(lhs[k]),
                                   "%s: %s*delta(%s) is not the integral of its %s" % (c[1], "C" if c[0] == "capacitor" else "L", "v" if c[0] == "capacitor" else "i", "current" if c[0] == "capacitor" else "voltage"))
                     bad = True
+        # ---- time scaling: the same circuit with every C and L doubled, on the grid 2t with inputs u(t/2), has sample for
+        # sample the same response (a second simulation in the same process that differs in the reactive values only)
+        if div == divs[0] and only is None and combos:
+            combo = combos[-1]
+            case = {"circuit": d, "inputs": list(combo), "div": div, "time_scaled_by": 2}
+            bump(res["hits"], "time_scaling")
+            try:
+                d2 = time_scaled(d, 2)
+                circ2 = adapt.circuit(d2)
+                f1 = {sid: shape_fn(sh, t_end, amps[sid]) for sid, sh in zip(src_ids, combo)}
+                f2 = {sid: shape_fn(sh, 2 * t_end, amps[sid]) for sid, sh in zip(src_ids, combo)}
+                s1 = TransientSolution(circuit=adapt.circuit(d), tin=t, input=f1)
+                s2 = TransientSolution(circuit=circ2, tin=2 * t, input=f2)
+                for kind, names in (("get_potential", nodes), ("get_voltage", ids), ("get_current", ids)):
+                    for nm in names:
+                        y1 = np.asarray(getattr(s1, kind)(nm)[1], float)
+                        y2 = np.asarray(getattr(s2, kind)(nm)[1], float)
+                        sc = max(np.abs(y1).max(), np.abs(y2).max(), 1e-300)
+                        ref_sc = max([np.abs(np.asarray(getattr(s1, kind)(x)[1], float)).max() for x in names] + [1e-300])
+                        if np.abs(y1 - y2).max() > 1e-7 * max(sc, ref_sc):
+                            k = int(np.argmax(np.abs(y1 - y2)))
+                            add_violation(res, "exact_pwl_response", dict(case, output=[kind, nm], sample=k), float(y1[k]), float(y2[k]),
+                                          "%s(%s): the circuit with all C and L doubled does not respond like the original on the doubled time axis" % (kind, nm))
+                            raise StopIteration
+            except StopIteration:
+                pass
+            except Exception as e:
+                add_violation(res, "exact_pwl_response", case, "a simulation", "%s: %s" % (type(e).__name__, e), "time-scaled simulation raised", kind="exception:" + type(e).__name__)
         if only is not None:
             continue
         # ---- (d) settling runs (only for strictly stable circuits)
